@@ -198,6 +198,9 @@ func (c *gctx) keyTypeNode(label string, kind int) string {
 		for _, s := range []string{"ab@cd.ef", "x.y@example.com"} {
 			c.hints[n] = append(c.hints[n], strVal(s))
 		}
+	case 8: // no rule at all: the example itself is the one key known to be admitted (DESIGN §4)
+		n.Tok, n.Str = `"plain/key"`, "plain/key"
+		c.hints[n] = append(c.hints[n], strVal("plain/key"))
 	case 7: // a rule that has nothing to say about strings next to length bounds
 		n.Tok, n.Str = `"nnnnnnnnn"`, "nnnnnnnnn"
 		n.Rules = append(n.Rules, TokRule("minLength", "9"), BoolRule("nullable", true), TokRule("maxLength", "9"))
@@ -352,9 +355,9 @@ func (c *gctx) objectNode(i int, self string, depth int, top bool, label string)
 		// one or two shortcut entries whose key types accept disjoint key sets (regex ^k[a-c]{2,3}$,
 		// length 5..6, enum kx|ky, a date, a constant of 8 characters, q followed by quotes, an
 		// e-mail address of more than 6 characters, length 9)
-		kinds := rapid.Permutation([]int{0, 1, 2, 0, 1, 2, 3, 4, 5, 6, 7}).Draw(c.t, label+"KTKinds")
+		kinds := rapid.Permutation([]int{0, 1, 2, 0, 1, 2, 3, 4, 5, 6, 7, 8}).Draw(c.t, label+"KTKinds")
 		if kinds[0] == kinds[1] {
-			kinds[1] = (kinds[0] + 1) % 8
+			kinds[1] = (kinds[0] + 1) % 9
 		}
 		cnt := 1 + c.draw(0, 1, label+"TwoShortcuts")
 		for k := 0; k < cnt; k++ {
@@ -538,7 +541,22 @@ func (c *gctx) orNode(i int, label string) *ref.SNode {
 					continue
 				}
 			}
-			switch c.draw(0, 2, fmt.Sprint(label, "Set", k)) {
+			switch c.draw(0, 3, fmt.Sprint(label, "Set", k)) {
+			case 3:
+				// an object alternative: nothing names a key, so additionalProperties decides every key
+				ap := rapid.SampledFrom([]string{"true", `"any"`, `"integer"`, `"string"`, "false", "", `"null"`, `"boolean"`}).Draw(c.t, fmt.Sprint(label, "SetAP", k))
+				rules := []ref.SRule{StrRule("type", "object")}
+				if ap != "" {
+					rules = append(rules, TokRule("additionalProperties", ap))
+					if c.draw(0, 1, fmt.Sprint(label, "SetAPFirst", k)) == 0 {
+						rules[0], rules[1] = rules[1], rules[0]
+					}
+				}
+				items = append(items, ref.OrItem{Rules: rules})
+				for _, d := range []string{`{}`, `{"z":1}`, `{"z":"s"}`, `{"y":null,"z":2}`, `{"z":true}`, `{"a":{}}`} {
+					v, _ := ref.Parse([]byte(d))
+					c.setHints[&rules[0]] = append(c.setHints[&rules[0]], v)
+				}
 			case 0:
 				lo := c.draw(0, 5, fmt.Sprint(label, "Lo", k))
 				hi := lo + c.draw(0, 5, fmt.Sprint(label, "Hi", k))
